@@ -146,7 +146,21 @@ def F16():
     return len(outs) > 1
 
 
-ALL = ["F1", "F2", "F3", "F4", "F5", "F6", "F7", "F8", "F9", "F12", "F13", "F14", "F15", "F16"]
+
+
+def F18():
+    from multidecoder.decoders.network import find_urls
+    (u,) = find_urls(b"see http://a.com/p?#frag now")
+    return any(c.type == "network.url.fragment" and u.value[c.start:c.end] != b"frag" for c in u.children)
+
+
+def F19():
+    from multidecoder.decoders.shell import find_powershell_strings
+    hits = find_powershell_strings(b"^powershell -enc aABlAGwAbABvAA==")
+    return any(not (0 <= c.start <= c.end <= len(h.value)) for h in hits for c in h.children)
+
+
+ALL = ["F1", "F2", "F3", "F4", "F5", "F6", "F7", "F8", "F9", "F12", "F13", "F14", "F15", "F16", "F18", "F19"]
 if __name__ == "__main__":
     for name in (sys.argv[1:] or ALL):
         try:
@@ -154,3 +168,4 @@ if __name__ == "__main__":
         except Exception as ex:
             r = f"demo error {type(ex).__name__}: {ex}"
         print(name, "PRESENT" if r is True else ("ABSENT" if r is False else r))
+
